@@ -73,7 +73,7 @@ func VerifGenCreateTable(sh int) VerifGen {
 		}
 		ct.Columns = append(ct.Columns, c)
 	}
-	ncons := verifChoice(2 + verifTier())
+	ncons := verifChoice(2) // two table constraints on top of three columns exhausted the machine's memory
 	for k := 0; k < ncons; k++ {
 		cols, t := vhGenKeyList()
 		if verifChoice(2) == 0 {
